@@ -11,6 +11,39 @@ namespace JSL
 
 variable {orc : Oracle} {inst : Instance}
 
+/-- the operation record written when setup / processing starts -/
+def opRec (oc : OpCfg) (a b : Int) (mid : Nat) : OpState :=
+  { job := oc.job, idx := oc.idx, start := some a, stop := some b, machine := mid, st := .processing }
+/-- buffer without job `j` -/
+def BufState.without (b : BufState) (j : Nat) (bss : BSS) : BufState :=
+  { b with store := b.store.filter (· != j), bss := bss }
+/-- buffer with job `j` appended at the back -/
+def BufState.withBack (b : BufState) (j : Nat) (bss : BSS) : BufState :=
+  { b with store := b.store ++ [j], bss := bss }
+/-- job relocated -/
+def JobState.at (j : JobState) (l : Nat) : JobState := { j with loc := l }
+
+def MachineState.toSetup (m : MachineState) (j : Nat) (b1 b2 : BSS) (t : Int) (tool : Nat) : MachineState :=
+  { m with pre := m.pre.without j b1, buffer := m.buffer.withBack j b2, st := .setup, occ := some t, tool := tool }
+def MachineState.toWorking (m : MachineState) (t : Int) : MachineState := { m with st := .working, occ := some t }
+def MachineState.toOutage (m : MachineState) (outs : List OutageState) (t : Int) : MachineState :=
+  { m with st := .outage, outages := outs, occ := some t }
+def MachineState.toIdle (m : MachineState) (j : Nat) (b1 b2 : BSS) : MachineState :=
+  { m with buffer := m.buffer.without j b1, post := m.post.withBack j b2, st := .idle,
+           outages := m.outages.map releaseOutage }
+
+@[simp] theorem BufState.without_id (b : BufState) (j : Nat) (x : BSS) : (b.without j x).id = b.id := rfl
+@[simp] theorem BufState.withBack_id (b : BufState) (j : Nat) (x : BSS) : (b.withBack j x).id = b.id := rfl
+@[simp] theorem BufState.without_store (b : BufState) (j : Nat) (x : BSS) :
+    (b.without j x).store = b.store.filter (· != j) := rfl
+@[simp] theorem BufState.withBack_store (b : BufState) (j : Nat) (x : BSS) :
+    (b.withBack j x).store = b.store ++ [j] := rfl
+@[simp] theorem JobState.at_id (j : JobState) (l : Nat) : (j.at l).id = j.id := rfl
+@[simp] theorem JobState.at_loc (j : JobState) (l : Nat) : (j.at l).loc = l := rfl
+@[simp] theorem JobState.at_ops (j : JobState) (l : Nat) : (j.at l).ops = j.ops := rfl
+@[simp] theorem replaceOp_id (j : JobState) (o : OpState) : (j.replaceOp o).id = j.id := rfl
+@[simp] theorem replaceOp_loc (j : JobState) (o : OpState) : (j.replaceOp o).loc = j.loc := rfl
+
 theorem putInBuffer_spec {b : BufState} {c : BufCfg} {j : JobState} {b' : BufState} {j' : JobState}
     (h : putInBuffer b c j = .ok (b', j')) :
     (b.store.length : Int) < c.cap ∧ b'.id = b.id ∧ b'.store = b.store ++ [j.id] ∧
@@ -59,12 +92,8 @@ theorem idleToSetup_spec {s s' : State} {r r' : Rng} {tr : Transition} {m : Mach
       oc ∈ inst.jobs.flatMap (·.ops) ∧ oc.job = op.job ∧ oc.idx = op.idx ∧
       mc ∈ inst.machines ∧ mc.id = m.id ∧ (m.buffer.store.length : Int) < mc.buf.cap ∧
       (∃ c, mc.setup.lookup (m.tool, oc.tool) = some c ∧ (sd, r') = c.readUpd orc r) ∧
-      s' = (s.replaceJob { (j.replaceOp { job := oc.job, idx := oc.idx, start := some s.time,
-                                           stop := some (s.time + sd), machine := m.id, st := .processing })
-                           with loc := m.buffer.id }).replaceMachine
-            { m with pre := { m.pre with store := m.pre.store.filter (· != j.id), bss := bss1 },
-                     buffer := { m.buffer with store := m.buffer.store ++ [j.id], bss := bss2 },
-                     st := .setup, occ := some (s.time + sd), tool := oc.tool } := by
+      s' = (s.replaceJob ((j.replaceOp (opRec oc s.time (s.time + sd) m.id)).at m.buffer.id)).replaceMachine
+            (m.toSetup j.id bss1 bss2 (s.time + sd) oc.tool) := by
   unfold handleMachineIdleToSetup at h
   cases htj : tr.job with
   | none => simp [htj] at h
@@ -112,7 +141,7 @@ theorem idleToSetup_spec {s s' : State} {r r' : Rng} {tr : Transition} {m : Mach
           simp at hsd
           exact ⟨c, hc, by simp [hsd]⟩
         · simp at hsd
-      · simp [JobState.replaceOp]
+      · simp [JobState.replaceOp, opRec, BufState.without, BufState.withBack, JobState.at, MachineState.toSetup]
 
 theorem nextNotDone_ok {j : JobState} {op : OpState} (h : j.nextNotDone = .ok op) : j.nextNotDone? = some op := by
   unfold JobState.nextNotDone at h
@@ -131,9 +160,8 @@ theorem setupToWorking_spec {s s' : State} {r r' : Rng} {tr : Transition} {m : M
       j ∈ s.jobs ∧ tr.job = some j.id ∧ j.id ∈ m.buffer.store ∧ j.nextNotDone? = some op ∧
       oc ∈ inst.jobs.flatMap (·.ops) ∧ oc.job = op.job ∧ oc.idx = op.idx ∧
       (d, r') = oc.dur.updRead orc r ∧
-      s' = (s.replaceJob (j.replaceOp { job := oc.job, idx := oc.idx, start := some s.time,
-                                         stop := some (s.time + d), machine := m.id, st := .processing })).replaceMachine
-            { m with st := .working, occ := some (s.time + d) } := by
+      s' = (s.replaceJob (j.replaceOp (opRec oc s.time (s.time + d) m.id))).replaceMachine
+            (m.toWorking (s.time + d)) := by
   unfold handleMachineSetupToWorking at h
   cases htj : tr.job with
   | none => simp [htj] at h
@@ -163,8 +191,7 @@ theorem workingToOutage_spec {s s' : State} {r r' : Rng} {tr : Transition} {m : 
       mc ∈ inst.machines ∧ mc.id = m.id ∧
       newOutageStates orc s.time m.outages mc.outages r = .ok (outs, r') ∧
       j ∈ s.jobs ∧ tr.job = some j.id ∧ j.processing? = some op ∧
-      s' = (s.replaceMachine { m with st := .outage, outages := outs,
-                                       occ := some (s.time + occupiedFor outs) }).replaceJob
+      s' = (s.replaceMachine (m.toOutage outs (s.time + occupiedFor outs))).replaceJob
             (j.replaceOp { op with stop := some (s.time + occupiedFor outs) }) := by
   unfold handleMachineWorkingToOutage at h
   obtain ⟨mc, hmc, h⟩ := except_bind_eq_ok h
@@ -191,10 +218,8 @@ theorem outageToIdle_spec {s s' : State} {r r' : Rng} {m : MachineState}
     ∃ (j : JobState) (op : OpState) (mc : MachineCfg) (rest : List Nat) (bss1 bss2 : BSS),
       m.buffer.store = j.id :: rest ∧ j ∈ s.jobs ∧ j.processing? = some op ∧
       mc ∈ inst.machines ∧ mc.id = m.id ∧ (m.post.store.length : Int) < mc.post.cap ∧ r' = r ∧
-      s' = (s.replaceJob { (j.replaceOp { op with stop := some s.time, st := .done }) with loc := m.post.id }).replaceMachine
-            { m with buffer := { m.buffer with store := m.buffer.store.filter (· != j.id), bss := bss1 },
-                     post := { m.post with store := m.post.store ++ [j.id], bss := bss2 },
-                     st := .idle, outages := m.outages.map releaseOutage } := by
+      s' = (s.replaceJob ((j.replaceOp { op with stop := some s.time, st := .done }).at m.post.id)).replaceMachine
+            (m.toIdle j.id bss1 bss2) := by
   unfold handleMachineOutageToIdle at h
   obtain ⟨⟨j1, m1⟩, hb, h⟩ := except_bind_eq_ok h
   simp at h
@@ -227,6 +252,6 @@ theorem outageToIdle_spec {s s' : State} {r r' : Rng} {m : MachineState}
       simp at hbid hbst hpid hpst
       subst hbid hbst hpid hpst
       refine ⟨j, op, mc, rest, bbss, pbss, by simp [hj'.2], hj'.1, hop, hmc'.1, hmc'.2, hcap, rfl, ?_⟩
-      simp [JobState.replaceOp, hst]
+      simp [JobState.replaceOp, hst, BufState.without, BufState.withBack, JobState.at, MachineState.toIdle]
 
 end JSL
